@@ -22,9 +22,10 @@ const (
 	TArr // array of int
 	TMap // map string -> int
 	numTy
+	TFnArr Ty = numTy // array of one-argument integer lambdas: only ever an explicit parameter type
 )
 
-func (t Ty) String() string { return [...]string{"int", "float", "str", "bool", "arr", "map"}[t] }
+func (t Ty) String() string { return [...]string{"int", "float", "str", "bool", "arr", "map", "fnarr"}[t] }
 
 // Flags are the swarm switches drawn per run.
 type Flags struct {
@@ -290,6 +291,13 @@ func (g *G) FloatLit() string {
 
 func (g *G) lit(t Ty) string {
 	switch t {
+	case TFnArr:
+		n := 1 + g.R.Intn(3)
+		parts := make([]string, n)
+		for i := range parts {
+			parts[i] = core.Pick(g.R, []string{"q => q + ", "q => q * ", "q => q - ", "q => q ^ "}) + strconv.Itoa(g.R.Intn(9))
+		}
+		return "[" + strings.Join(parts, ", ") + "]"
 	case TInt:
 		return g.negSafe(g.IntLit())
 	case TFloat:
@@ -385,6 +393,9 @@ func (g *G) Call(f *Func, d int) string {
 func (g *G) Expr(t Ty, d int) string {
 	r := g.R
 	g.tick(1)
+	if t == TFnArr {
+		return g.lit(t)
+	}
 	if d >= 3 || r.Bool(.3) {
 		if v, ok := g.varOf(t); ok && r.Bool(.7) {
 			if t == TBool {
@@ -951,6 +962,12 @@ func (g *G) FuncDef() string {
 		return fmt.Sprintf("func %s(x, ..) { x + len(..) * %d }", name, 1+r.Intn(5))
 	case g.F.Closures && r.Bool(.25):
 		return g.closureDef(f)
+	case g.F.Lambdas && g.F.Arrays && r.Bool(.12):
+		// an integer parameter used inside a computed callee (fs[i](..)) and as plain operand
+		f.Params = []Var{{Name: "fs", Ty: TFnArr, Local: true}, {Name: "x", Ty: TInt, Local: true}, {Name: "y", Ty: TInt, Local: true}}
+		f.Ret, f.Cost = TInt, 25
+		g.Funcs = append(g.Funcs, f)
+		return fmt.Sprintf("func %s(fs, x, y) { fs[x %% len(fs)](y) + fs[(y + %d) %% len(fs)](x) + x }", name, r.Intn(3))
 	}
 	g.genParams(f)
 	g.Funcs = append(g.Funcs, f)
